@@ -909,3 +909,85 @@ mut("C01", "channel_table_swapped", "default channel table lists Mutations befor
     ("src/shared/backend/channels.rs", """                ServerChannel::Updates.into(),
                 ServerChannel::Mutations.into(),""", """                ServerChannel::Mutations.into(),
                 ServerChannel::Updates.into(),"""))
+
+# ------------------------------------------------------------------ C02
+mut("C02", "mutations_set_last_tick_unconditionally", "apply_mutations moves the confirmed tick to the message tick even for older messages", ["set_last_tick-only-on-update-path", "direct-write-only-when-newer"],
+    ("src/client.rs", """    let new_tick = message_tick > history.last_tick();
+    if new_tick {
+        history.set_last_tick(message_tick);
+    } else {""", """    let new_tick = message_tick > history.last_tick();
+    history.set_last_tick(message_tick);
+    if new_tick {
+    } else {"""))
+mut("C02", "stale_mutations_written", "older mutate data is written directly over newer state", ["direct-write-only-when-newer", "history-path"],
+    ("src/client.rs", """            if new_tick {
+                component_fns.write(""", """            if new_tick || components_count == 0 {
+                component_fns.write("""))
+mut("C02", "history_processed_without_marker", "older data is processed although no marker asked for history", ["history-path-only-when-requested"],
+    ("src/client.rs", """        if !params.entity_markers.need_history() {
+            trace!("ignoring outdated mutations for `{}`", client_entity.id());
+            message.advance(data_size);
+            return Ok(());
+        }
+""", ""))
+mut("C02", "skip_without_advancing", "skipped entity data is not skipped in the cursor (next entity parsed from garbage)", ["skips-exactly-the-entity-data", "every-ok-exit-consumes-entity-data"],
+    ("src/client.rs", """            trace!("ignoring outdated mutations for `{}`", client_entity.id());
+            message.advance(data_size);
+            return Ok(());""", """            trace!("ignoring outdated mutations for `{}`", client_entity.id());
+            return Ok(());"""))
+mut("C02", "baseline_not_bumped_on_removal", "pending removals no longer merge mutations / bump the baseline", ["structural-change-conditions"],
+    ("src/server.rs", """                if new_entity
+                    || updates.changed_entity_added()
+                    || removal_buffer.contains_key(&entity.id())
+                {""", """                if new_entity || updates.changed_entity_added() {"""))
+mut("C02", "baseline_bumped_always", "baseline bumped for every visible entity on every tick", ["bump-only-on-structural-change"],
+    ("src/server.rs", """                        updates.take_added_entity(&mut mutations);
+                    }
+                    ticks.set_mutation_tick(entity.id(), change_tick.this_run());
+                }
+""", """                        updates.take_added_entity(&mut mutations);
+                    }
+                }
+                ticks.set_mutation_tick(entity.id(), change_tick.this_run());
+"""))
+mut("C02", "merge_without_bump", "mutations merged into the update message but baseline bumped only for new entities", ["bump-on-every-structural-change"],
+    ("src/server.rs", "                    ticks.set_mutation_tick(entity.id(), change_tick.this_run());\n                }\n\n                if new_entity && !updates.changed_entity_added() {", "                    if new_entity {\n                        ticks.set_mutation_tick(entity.id(), change_tick.this_run());\n                    }\n                }\n\n                if new_entity && !updates.changed_entity_added() {"))
+mut("C02", "set_last_tick_public", "set_last_tick becomes public API", ["set_last_tick/not-public"],
+    ("src/client/confirm_history.rs", "    pub(super) fn set_last_tick(&mut self, tick: RepliconTick) {", "    pub fn set_last_tick(&mut self, tick: RepliconTick) {"))
+mut("C02", "ticks_swapped_on_client", "client swaps update tick and message tick when buffering", ["ticks-in-wire-order"],
+    ("src/client.rs", "    buffered_mutations.insert(BufferedMutate {\n        update_tick,\n        message_tick,", "    buffered_mutations.insert(BufferedMutate {\n        update_tick: message_tick,\n        message_tick: update_tick,"))
+
+# ------------------------------------------------------------------ C16
+mut("C16", "mappings_not_drained", "pending mappings are copied, not drained (re-sent every tick)", ["drains-all-pending", "shape"],
+    ("src/server.rs", "let mappings = serialized.write_mappings(entity_map.0.drain(..))?;", "let mappings = serialized.write_mappings(entity_map.0.iter().copied())?;"))
+mut("C16", "mappings_collected_after_changes", "mappings are collected after the changes of the tick", ["mappings-collected-in-same-run"],
+    ("src/server.rs", "    collect_mappings(&mut serialized, &mut clients)?;\n    collect_despawns", "    collect_despawns"),
+    ("src/server.rs", "    removal_buffer.clear();\n\n    send_messages(", "    removal_buffer.clear();\n    collect_mappings(&mut serialized, &mut clients)?;\n\n    send_messages("))
+mut("C16", "mapping_adopted_for_missing_entity", "mapping recorded even if the client entity no longer exists", ["map-insert-only-if-entity-exists", "apply_entity_mapping/shape"],
+    ("src/client.rs", """        debug!(
+            "received mapping from {server_entity:?} to {client_entity:?}, but the entity doesn't exists"
+        );""", """        debug!(
+            "received mapping from {server_entity:?} to {client_entity:?}, but the entity doesn't exists"
+        );
+        params.entity_map.insert(server_entity, client_entity);"""))
+mut("C16", "mapping_pair_swapped_on_client", "client inserts (client, server) into the map", ["server-then-client"],
+    ("src/client.rs", "        params.entity_map.insert(server_entity, client_entity);", "        params.entity_map.insert(client_entity, server_entity);"))
+mut("C16", "mapping_pair_swapped_on_server", "server writes (client, server)", ["write_mappings/server-then-client"],
+    ("src/server/replication_messages/serialized_data.rs", "            self.write_entity(server_entity)?;\n            self.write_entity(client_entity)?;", "            self.write_entity(client_entity)?;\n            self.write_entity(server_entity)?;"))
+mut("C16", "record_always_spawns", "the entity's record spawns a fresh entity even when a mapping exists", ["spawns-only-when-unmapped"],
+    ("src/client.rs", """        EntityEntry::Occupied(entry) => {
+            let mut client_entity =
+                DeferredEntity::new(world.get_entity_mut(entry.get())?, params.changes);
+            if !client_entity.contains::<Replicated>() {
+                // The entity could be reserved earlier by a mapped component that referenced it.
+                client_entity.insert(Replicated);
+            }
+            client_entity
+        }""", """        EntityEntry::Occupied(entry) => {
+            let _ = entry.get();
+            let mut client_entity = DeferredEntity::new(world.spawn_empty(), params.changes);
+            client_entity.insert(Replicated);
+            client_entity
+        }"""))
+mut("C16", "mappings_range_not_reset", "the mappings range is not reset between ticks", ["Updates::clear/resets-mappings"],
+    (UPDS, "        self.mappings = Default::default();\n        self.mappings_len = 0;\n", "        self.mappings_len = 0;\n"))
